@@ -425,6 +425,27 @@ def alias_rules(rng, doc, count):
     return text, want
 
 
+def interp_rules(rng, doc):
+    """a struct indexed by the VALUES of a variable (`Struct.%names...`) where one of the names is not a key: the unresolved point
+    is the struct that was reached, not the place the name came from. Names taken from the data (a list added to the document),
+    from a single data string, and from a literal. Returns (rules text, {rule name: pointer of the struct}, document)"""
+    structs = [(p, v) for p, v in gen.doc_paths(doc) if p and isinstance(v, dict) and v and all(isinstance(x, str) and re.fullmatch(r'[A-Za-z][A-Za-z0-9]*', x) for x in p)
+               and all(re.fullmatch(r'[A-Za-z][A-Za-z0-9_]*', k) for k in v)]
+    if not structs or 'ZzSelected' in doc:
+        return '', {}, doc
+    p, v = rng.choice(structs)
+    q = '.'.join(p)
+    have = rng.choice(sorted(v))
+    doc = dict(doc)
+    doc['ZzSelected'] = [have, 'zz_not_a_key', 'zz_neither']
+    doc['ZzOne'] = 'zz_single_missing'
+    ptr = '/' + '/'.join(p)
+    text = ('rule interp0 {\n  let names = ZzSelected\n  %s.%%names exists\n}\n'
+            'rule interp1 {\n  let one = ZzOne\n  %s.%%one.deeper == 987654\n}\n'
+            'rule interp2 {\n  let lit = "zz_literal_missing"\n  %s.%%lit exists\n}\n' % (q, q, q))
+    return text, {'interp0': ptr, 'interp1': ptr, 'interp2': ptr}, doc
+
+
 def reported_paths(ctx, n):
     rng = random.Random(ctx.seed * 401 + 11)
     jobs, scen = [], []
@@ -441,15 +462,20 @@ def reported_paths(ctx, n):
             doc = dict(doc)
             doc[''] = {'Size': 5, 'inner': [1, {'a': 2}], '': {'deep': 7}}
             rules += 'rule emptykey {\n  this.*.Size == 987654\n  this.*.inner[*] == 987654\n  this.*.*.deep == 987654\n}\n'
+        itext, iwant = '', {}
+        if k % 2 == 1:
+            itext, iwant, doc = interp_rules(random.Random(ctx.seed * 7919 + k), doc)
+            rules += itext
         name, em = EMITTERS[k % len(EMITTERS)]
         text, pos = em(rng, doc)
         d = os.path.join(ctx.wd, 'q%d' % k)
         fn = 'd.json' if name == 'json' else 'd.yaml'
         e2e.write_files(d, {'r.guard': rules, fn: text})
-        scen.append({'rules': rules, 'doc': doc, 'text': text, 'pos': pos, 'format': name, 'alias': awant})
+        scen.append({'rules': rules, 'doc': doc, 'text': text, 'pos': pos, 'format': name, 'alias': awant, 'interp': iwant})
         jobs.append({'args': ['validate', '-r', 'r.guard', '-d', fn, '--structured', '-o', 'json', '-S', 'none'], 'cwd': d})
     res = e2e.run_many(jobs)
     npaths, nun, nloc, nalias = 0, 0, 0, 0
+    ninterp = 0
     nskipped = 0
     for sc, (code, so, se) in zip(scen, res):
         if code not in (0, 19):
@@ -488,6 +514,28 @@ def reported_paths(ctx, n):
                 if len(urs) != 1 or urs[0]['traversed_to']['path'] != sc['alias'][nm] or not (urs[0].get('remaining_query') or '').startswith('zzq'):
                     ctx.failing('a query that reaches %s through a differently cased key and then asks for a missing key reports the unresolved point %s' %
                                 (sc['alias'][nm], [(u['traversed_to']['path'], u.get('remaining_query')) for u in urs]), dict(info, rule=nm), found=True)
+        for cr in rep['not_compliant']:
+            nm = cr.get('Rule', {}).get('name')
+            if nm in sc['interp']:
+                urs = []
+                def coll2(x):
+                    if isinstance(x, dict):
+                        if 'traversed_to' in x and 'remaining_query' in x:
+                            urs.append(x)
+                        for v in x.values():
+                            coll2(v)
+                    elif isinstance(x, list):
+                        for v in x:
+                            coll2(v)
+                coll2(cr)
+                ninterp += 1
+                bad = [u['traversed_to']['path'] for u in urs if u['traversed_to']['path'] != sc['interp'][nm]]
+                if not urs or bad:
+                    ctx.failing('a struct at %s indexed by the values of a variable, one of which is not a key: the unresolved point is reported at %s' %
+                                (sc['interp'][nm], bad or 'no unresolved value at all'), dict(info, rule=nm), found=True)
+        for nm in sc['interp']:
+            if nm not in [cr.get('Rule', {}).get('name') for cr in rep['not_compliant']]:
+                ctx.failing('rule %s indexes a struct by a name that is not a key and is not reported as failing' % nm, dict(info, rule=nm), found=True)
         for nm in sc['alias']:
             if nm not in seen_alias:
                 ctx.failing('rule %s asks for a missing key and is not reported as failing' % nm, dict(info, rule=nm), found=True)
@@ -539,6 +587,7 @@ def reported_paths(ctx, n):
     ctx.coverage['unresolved_checks_checked'] = nun
     ctx.coverage['message_locations_checked'] = nloc
     ctx.coverage['case_alias_queries_checked'] = nalias
+    ctx.coverage['variable_indexed_structs_checked'] = ninterp
     ctx.coverage['scenarios_with_an_evaluation_error'] = nskipped
     ctx.coverage['evaluations'] += n
     ctx.sample({'rules': scen[0]['rules'], 'format': scen[0]['format'], 'text': scen[0]['text'][:600]})
